@@ -316,6 +316,9 @@ func checkSet(r *ev.Run, ds []def, family string) {
 			r.Report("", fmt.Sprintf("definitions %v (%s): DFA() fails: %v", names, via, err), in)
 			continue
 		}
+		if err != nil {
+			r.Add("conflict_answers_"+family, 1)
+		}
 		// for the parsed route the definitions emerge lists may carry other names/order: map by name
 		o := judge(ds, dfa, tm, err)
 		r.Add("states", o.states)
@@ -427,6 +430,73 @@ func main() {
 	}
 	cur = nil
 	recU(0)
+	// many definitions at once (state numbers of the union with two and three digits, terminal indices beyond the
+	// first few): a pool of 21 definitions that do not conflict with one another (patterns overlap literals only),
+	// whole, without every one (quick) / every two (thorough) of its members, every window of 5 to 16 consecutive
+	// members; and windows of 5 to 12 members of the whole pool taken with strides 1 to 3, where conflicts are frequent
+	var big []def
+	for _, nm := range []string{"KIF", "KI", "KIN", "EQ", "EQEQ", "DQ", "BS", "AQB", "SL", "QQ", "QAQ", "BSBS", "BSQ", "AB", "LOW", "INT", "EQS", "QSTR", "WS", "COMMENT", "UETE"} {
+		big = append(big, byName[nm])
+	}
+	order := func(ds []def) []def {
+		ds = append([]def{}, ds...)
+		sort.SliceStable(ds, func(i, j int) bool {
+			if ds[i].Literal != ds[j].Literal {
+				return ds[i].Literal
+			}
+			if len(ds[i].Name) != len(ds[j].Name) {
+				return len(ds[i].Name) < len(ds[j].Name)
+			}
+			return ds[i].Name < ds[j].Name
+		})
+		return ds
+	}
+	var bigSets [][]def
+	bigSets = append(bigSets, big)
+	without := func(skip ...int) []def {
+		var ds []def
+		for i, d := range big {
+			if (len(skip) > 0 && i == skip[0]) || (len(skip) > 1 && i == skip[1]) {
+				continue
+			}
+			ds = append(ds, d)
+		}
+		return ds
+	}
+	for i := range big {
+		bigSets = append(bigSets, without(i))
+		if !r.Quick() {
+			for j := i + 1; j < len(big); j++ {
+				bigSets = append(bigSets, without(i, j))
+			}
+		}
+	}
+	for size := 5; size <= 16; size++ {
+		for i := 0; i+size <= len(big); i++ {
+			bigSets = append(bigSets, big[i:i+size])
+		}
+	}
+	sizes := []int{5, 6, 8}
+	if !r.Quick() {
+		sizes = []int{5, 6, 7, 8, 10, 12}
+	}
+	for _, size := range sizes {
+		for stride := 1; stride <= 3; stride++ {
+			for i := range pool {
+				var ds []def
+				for k := 0; k < size; k++ {
+					ds = append(ds, pool[(i+k*stride)%len(pool)])
+				}
+				bigSets = append(bigSets, ds)
+			}
+		}
+	}
+	for _, ds := range bigSets {
+		n++
+		if r.MineIdx(n) && !r.Expired() {
+			checkSet(r, order(ds), "many_definitions")
+		}
+	}
 	r.Assume("a string literal denotes its characters with backslash escapes resolved (a backslash makes the next character literal); pattern semantics as in C02; the pool avoids classes containing NUL, so the known finding nul-epsilon of C02 does not interfere here")
 	r.Finish()
 }
